@@ -335,6 +335,12 @@ func fieldRecs(fd protoreflect.FieldDescriptor, o WireOpt) []Rec {
 		if fd.IsList() && wt != protowire.BytesType {
 			ps := scalarPayloads(fd, true)
 			add("packed[2]", cat(tag(n, protowire.BytesType), lenPrefixed(cat(ps[0].B, ps[0].B))))
+			if wt == protowire.Fixed32Type || wt == protowire.Fixed64Type {
+				// a payload that ends in the middle of an element: one and a half elements
+				// (for 64-bit kinds that is a multiple of 4 but not of 8)
+				half := ps[0].B[:len(ps[0].B)/2]
+				add("packed[1.5]", cat(tag(n, protowire.BytesType), lenPrefixed(cat(ps[0].B, half))))
+			}
 			if wt == protowire.VarintType {
 				// a 10-byte element whose last byte overflows 64 bits is malformed wherever it sits
 				add("packed[1,overflow10]", cat(tag(n, protowire.BytesType), lenPrefixed(cat(ps[0].B, overflow10))))
